@@ -163,7 +163,10 @@ int main(int argc, char **argv) {
     if (argc < 5) return 2;
     int replay = !strcmp(argv[1], "replay");
     loc = replay ? argv[2] : argv[1];
-    if (!setlocale(LC_ALL, loc)) { fprintf(stderr, "cannot set locale %s\n", loc); return 2; }
+    /* "A>B": a history over locales: every converter is called once under locale A, then the enumeration runs under B */
+    char first[64] = "", second[64]; snprintf(second, sizeof second, "%s", loc);
+    if (strchr(loc, '>')) { snprintf(first, sizeof first, "%.*s", (int)(strchr(loc, '>') - loc), loc); snprintf(second, sizeof second, "%s", strchr(loc, '>') + 1); }
+    if (!setlocale(LC_ALL, first[0] ? first : second)) { fprintf(stderr, "cannot set locale %s\n", loc); return 2; }
     void *L = dlopen(getenv("CAT_LIB"), RTLD_NOW | RTLD_GLOBAL);
     if (!L) { fprintf(stderr, "cannot load CAT_LIB\n"); return 2; }
     *(void **)&f_mbstowcs = dlsym(L, "_mbstowcs_s_chk"); *(void **)&f_mbsrtowcs = dlsym(L, "_mbsrtowcs_s_chk"); *(void **)&f_wcstombs = dlsym(L, "_wcstombs_s_chk");
@@ -173,6 +176,12 @@ int main(int argc, char **argv) {
     ss((void *)handler);
     arena = mmap(NULL, 6 * PG, PROT_NONE, MAP_PRIVATE | MAP_ANONYMOUS, -1, 0); mprotect(arena + PG, 4 * PG, PROT_READ | PROT_WRITE);
     signal(SIGSEGV, on_segv);
+    if (first[0]) {
+        size_t r; int ri; wchar_t wb[8]; char cb[16]; const char *sp = "a"; const wchar_t *wp = L"a"; mbstate_t st; memset(&st, 0, sizeof st);
+        f_mbstowcs(&r, wb, 8, "a", 1, BOSU); f_mbsrtowcs(&r, wb, 8, &sp, 1, &st, BOSU); f_wcstombs(&r, cb, 16, L"a", 1, BOSU); f_wcsrtombs(&r, cb, 16, &wp, 1, &st, BOSU);
+        f_wcrtomb(&r, cb, 16, L'a', &st, BOSU); f_wctomb(&ri, cb, 16, L'a', BOSU);
+        if (!setlocale(LC_ALL, second)) { fprintf(stderr, "cannot set locale %s\n", second); return 2; }
+    }
     /* alphabets */
     static const char *MB[] = { "a", "\xc3\xa9", "\xe2\x82\xac", "\xf0\x9f\x98\x80", "\x80", "\xc3", "\xed\xa0\x80", "\xf5" };
     static const wchar_t WC[] = { L'a', 0xe9, 0x20ac, 0x1f600, 0xd800, 0x110000 };
@@ -183,6 +192,16 @@ int main(int argc, char **argv) {
                if (!strcmp(fn, "wcrtomb_s")) t_wc1(w[0], dmax, dnull, 0); else if (!strcmp(fn, "wctomb_s")) t_wc1(w[0], dmax, dnull, 1); else t_wcstombs(w, dmax, len, dnull, !strcmp(fn, "wcsrtombs_s")); }
         if (nsig) { printf("VERDICT violation %s\n", sigs[0]); return 1; }
         printf("VERDICT ok%s\n", n_fault ? " (faulted: judged by C01/C02)" : ""); return 0;
+    }
+    if (!strcmp(argv[2], "sweep")) {            /* every code point (and a few values beyond) through the single-character converters */
+        long shard = atol(argv[3]), nsh = atol(argv[4]);
+        for (long wc = 1; wc <= 0x110100; wc++) { if ((wc % nsh) != shard) continue;
+            for (int which = 0; which < 2; which++) { t_wc1((wchar_t)wc, 1, 0, which); t_wc1((wchar_t)wc, 3, 0, which); t_wc1((wchar_t)wc, 5, 0, which); t_wc1((wchar_t)wc, 8, 0, which); }
+            char ref[MB_LEN_MAX + 1]; mbstate_t st; memset(&st, 0, sizeof st); size_t n = wcrtomb(ref, (wchar_t)wc, &st);
+            if (n != (size_t)-1 && n > 0) { ref[n] = 0; t_mbstowcs(ref, 2, 1, 0, 0); t_mbstowcs(ref, 2, 4, 0, 1); } }
+        for (int i = 0; i < nsig; i++) printf("{\"t\":\"viol\",\"sig\":\"%s\",\"n\":%ld,\"case\":\"%s\"}\n", sigs[i], sigcnt[i], sigcase[i]);
+        printf("{\"t\":\"stat\",\"locale\":\"%s\",\"calls\":%ld,\"faulted_left_to_C01\":%ld,\"violating\":%ld}\n", loc, n_calls, n_fault, n_viol);
+        return 0;
     }
     int N = atoi(argv[2]); long shard = atol(argv[3]), nsh = atol(argv[4]); long idx = 0;
     for (int nc = 0; nc <= N; nc++) {
